@@ -110,6 +110,9 @@ SHAPES = [
     ("event_span", CX, r"impl<'a, C> Context<'a, C>[^{]*\{", "event_span",
      'if event.is_root() { None } else if event.is_contextual() { self.lookup_current() } else { event.parent().and_then(|id| self.span(id)) }', []),
     ("event_scope", CX, r"impl<'a, C> Context<'a, C>[^{]*\{", "event_scope", 'Some(self.event_span(event)?.scope())', []),
+    ("lookup_current_filtered", CX, r"impl<'a, C> Context<'a, C>[^{]*\{", "lookup_current_filtered",
+     'let registry = (subscriber as &dyn Collect).downcast_ref::<Registry>()?; registry .span_stack() .iter() '
+     '.find_map(|id| subscriber.span(id)?.try_with_filter(self.filter))', []),
     ("lookup_current", CX, r"impl<'a, C> Context<'a, C>[^{]*\{", "lookup_current",
      'let subscriber = *self.subscriber.as_ref()?; let current = subscriber.current_span(); let id = current.id()?; '
      'let span = subscriber.span(id); debug_assert!( span.is_some(), "the subscriber should have data for the current span ({:?})!", id, ); '
